@@ -474,6 +474,20 @@ def oallSync : Option Entry → Bool
   | none => true
   | some e => e.allSync
 
+mutual
+/-- No phantom directory anywhere (phantoms are reified before reconciliation,
+phantom.go `ReifyPhantomDirectories`; they do not exist with Mutagen-style ignores). -/
+def Entry.noPhantom : Entry → Bool
+  | .mk p cs => p.kind != .phantom && Entry.noPhantomL cs
+def Entry.noPhantomL : Contents → Bool
+  | [] => true
+  | (_, c) :: r => c.noPhantom && Entry.noPhantomL r
+end
+
+def onoPhantom : Option Entry → Bool
+  | none => true
+  | some e => e.noPhantom
+
 /-- Scalar fields of the entry at a path. -/
 def pget (e : Option Entry) (q : Path) : Option Props := (getPath e q).map Entry.props
 
